@@ -251,6 +251,19 @@ impl Suite for Values {
             }
             _ => {
                 // typed comparisons and views
+                // floats where `==` and bit identity part ways: signed zeros (equal, different bits) and
+                // NaN (unequal to itself, same bits)
+                if rng.chance(1, 3) {
+                    let (a, b) = *rng.pick(&[
+                        (0x0000_0000_0000_0000u64, 0x8000_0000_0000_0000u64),
+                        (0x8000_0000_0000_0000, 0x0000_0000_0000_0000),
+                        (0x7ff8_0000_0000_0000, 0x7ff8_0000_0000_0000),
+                        (0x7ff0_0000_0000_0000, 0x7ff0_0000_0000_0000),
+                        (0xfff8_0000_0000_0001, 0x7ff8_0000_0000_0000),
+                    ]);
+                    lines.push(format!("view {}", Val::Float(a).tok()));
+                    lines.push(format!("cmp {} f64 {b:016x}", Val::Float(a).tok()));
+                }
                 for _ in 0..rng.range(3, 12) {
                     let v = gen::val(rng, false);
                     lines.push(format!("view {}", v.tok()));
